@@ -10,10 +10,10 @@ Example C09_nonvacuous :
   exit_code (format_files {| check := true; diff := false |} [Same; Changed]) = 1%Z.
 Proof. split; [exists [W [100%Z]; NL; IN; W [112%Z]], [DE]; split; [reflexivity|repeat constructor]|]. split; reflexivity. Qed.
 
-(* T1  fmt (fmt x) = fmt x at the token level, for every ladder-well-formed expression outside the `::` class
+(* T1  fmt (fmt x) = fmt x at the token level, for every ladder-well-formed expression
        (integral floats included: the first pass turns them into ints, the second pass changes nothing) *)
 Theorem C09_fmt_idempotent : forall e fuel,
-  ladder_wf e -> has_cc e = false -> need e <= fuel ->
+  ladder_wf e -> need e <= fuel ->
   fmt_src fuel (print_expr e) = Some (print_expr e).
 Proof. exact fmt_idempotent_tokens. Qed.
 Print Assumptions C09_fmt_idempotent.
